@@ -512,7 +512,7 @@ def judge_state(w, obs, clauses, with_contents=True):
     return out
 
 
-def _compare_restored(obs0, obs3):
+def _compare_restored(obs0, obs3, clause='C14.addremove', symptom=None):
     comp = [k for k in ('val', 'vwp', 'known', 'profiles', 'pbp', 'defaults') if obs0[k] != obs3[k]]
     if not comp:
         return None
@@ -524,7 +524,7 @@ def _compare_restored(obs0, obs3):
     else:
         sym = 'names-not-restored:' + '+'.join(comp)
     d = _verdict_diffs(obs3['val'], obs0['val'], 'validate') or _verdict_diffs(obs3['vwp'], obs0['vwp'], 'validateWithProfile')
-    return Finding('C14.addremove', sym, 'observation before the add', d or [[k, obs0[k], obs3[k]] for k in comp if k not in ('val', 'vwp')][:3])
+    return Finding(clause, symptom or sym, 'observation before the add', d or [[k, obs0[k], obs3[k]] for k in comp if k not in ('val', 'vwp')][:3])
 
 
 def _undo(w, probe):
@@ -787,6 +787,38 @@ def _expand_state(res, h, tier):
             f = _compare_restored(obs0, observe(w2))
             if f is not None:
                 _prov(res, f, {'kind': 'addremove', 'history': h, 'probe': op})
+            elif op[0] == 'add' and w.mode == 'shared':
+                # (f) the caller goes on using its dictionaries: what was registered is what they held then
+                res.clauses['C14.callerdicts'] += 1
+                res.transitions += 1
+                f = _caller_mutates(h, op, obs0)
+                if f is not None:
+                    _prov(res, f, {'kind': 'callerdicts', 'history': h, 'probe': op})
+
+
+def _caller_mutates(h, probe, obs0=None):
+    """after every registration of the history the caller changes the dictionaries it handed over (new macro that shadows a
+    standard one, new property, changed pattern); then profile `probe` is added and removed again (which re-expands everything):
+    the observation is the one of the history without those changes"""
+    try:
+        w = build(h)
+        if obs0 is None:
+            obs0 = observe(w)
+        for a, (props, macros) in w.defs.items():
+            if NAME[a] in w.seq:
+                macros['length'] = '0|{num}furlong'
+                macros['int'] = 'never'
+                props['x-added-later'] = 'yes'
+                for k in list(props):
+                    if k != 'x-added-later':
+                        props[k] = 'changed-later'
+        w.apply(probe)
+        _undo(w, probe)
+        return _compare_restored(obs0, observe(w), clause='C14.callerdicts', symptom='registered-profile-follows-later-changes-of-the-callers-dictionaries')
+    except IllFormed:
+        return None
+    except Exception as e:
+        return Finding('C14.callerdicts', _exc(e), 'no exception', repr(e))
 
 
 def _with_and_without_questions(h2):
@@ -851,6 +883,9 @@ def judge_case(case, tier, clauses=None):
         return []
     except Exception:
         return []  # an earlier operation raises: reported at that state, not here
+    if kind == 'callerdicts':
+        f = _caller_mutates(h, case['probe'])
+        return [f] if f else []
     if kind == 'asked-before':
         f = _with_and_without_questions(h)
         return [f] if f else []
